@@ -317,7 +317,7 @@ def classify_pool_case(c):
 # ------------------------------------------------------------------------------------------------
 
 def oracle_query(lines):
-    orc = os.path.join(common.LEAN, ".lake/build/bin/oracle")
+    orc = common.oracle_path()
     inp = "".join("%d\t-\t%s\n" % (i, l) for i, l in enumerate(lines))
     p = subprocess.run([orc], input=inp.encode(), stdout=subprocess.PIPE, stderr=subprocess.PIPE)
     out = {}
@@ -484,11 +484,12 @@ def pool_check(mod, tier, seed):
         ok, out, _ = common.regenerate()
         res.add_obligation("T1/T3:regenerate-from-source", ok, "tie", "" if ok else out[-500:])
         gen_ok = ok
-        bok, broken, bout, _ = common.lake_build(mod.LEAN_MODULES + ["oracle"])
-        oracle_ok = os.path.exists(os.path.join(common.LEAN, ".lake/build/bin/oracle")) and not any(
+        common.set_oracle(mod.ID)
+        bok, broken, bout, _ = common.lake_build(mod.LEAN_MODULES + [common.ORACLE])
+        oracle_ok = os.path.exists(common.oracle_path()) and not any(
             b["file"].startswith(("Gv/Model", "Gv/Oracle", "Gv/Gen", "Gv/Basic", "Gv/Spec", "Main")) for b in broken)
         if not bok and oracle_ok:
-            ook, _, _, _ = common.lake_build(["oracle"])
+            ook, _, _, _ = common.lake_build([common.ORACLE])
             oracle_ok = ook
         ths = []
         if bok:
@@ -735,7 +736,8 @@ def pool_replay(mod, path):
     c = Case(d["case"]["op"], d["case"]["args"])
     with common.Lock():
         common.regenerate()
-        common.lake_build(["oracle"])
+        common.set_oracle(mod.ID)
+        common.lake_build([common.ORACLE])
         ok, out, _, binpath = common.build_harness()
         if d.get("kind") == "race":
             ok, out, _, racebin = common.build_harness(race=True)
